@@ -221,11 +221,21 @@ def case(ctx, i, rec):
         rec.violation("mutation-sites-changed", "mutation rows/sites changed")
     else:
         pos = ts.sites_position[ts.mutations_site]
+        # rows of one site may come back in another order (tables.sort(), see the C02 finding):
+        # mutations are matched within their site by the source node they map back to
+        import collections as _c
+        by_site_in, by_site_out = _c.defaultdict(list), _c.defaultdict(list)
         for m in range(ts.num_mutations):
-            w, u = int(out.mutations_node[m]), int(ts.mutations_node[m])
-            if nmap.get(w, w) != u:
-                rec.violation("mutation-moved-to-other-source-node", f"mutation {m}: input node {u}, output node {w} (source {nmap.get(w, w)})")
+            by_site_in[int(ts.mutations_site[m])].append(int(ts.mutations_node[m]))
+            by_site_out[int(out.mutations_site[m])].append(int(nmap.get(int(out.mutations_node[m]), int(out.mutations_node[m]))))
+        for s_, nodes_in in by_site_in.items():
+            if sorted(nodes_in) != sorted(by_site_out[s_]):
+                rec.violation("mutation-moved-to-other-source-node",
+                              f"site {s_}: input mutation nodes {sorted(nodes_in)}, output nodes map back to {sorted(by_site_out[s_])}")
                 break
+        for m in range(ts.num_mutations):
+            w = int(out.mutations_node[m])
+            u = int(nmap.get(w, w))
             pin = any(a <= pos[m] < b for a, b in inp.get(u, []))
             pout = any(a <= pos[m] < b for a, b in outp.get(w, []))
             if pin and not pout:
